@@ -41,6 +41,10 @@ pub fn install_panic_hook() {
             if verbose {
                 eprintln!("[panic] {message} at {location}");
             }
+            // a panic the scenario asked its own application handler to raise is an input
+            if message.starts_with("deliberate:") {
+                return;
+            }
             if let Ok(mut g) = PANICS.lock() {
                 g.push((std::thread::current().id(), PanicRecord { message, location }));
             }
